@@ -118,6 +118,24 @@ def run(tier, seed):
         if core.tv_once("Trace_Rdp", sp, decoded, wd, overrides=True) is None:
             tested = selftest.run("Trace_Rdp", sl[0], decoded, wd, corruptions(), overrides=True)
         lic = licence_table(v, wd)
+        # beyond the listed properties: the configuration is what the client requests (core data, capability sets);
+        # the same traces validated again with the extra conjunct CfgEchoOk - mismatches are notes, never violations
+        echo = {"runs": accepted, "mismatches": []}
+        if not rejects:
+            acc2, rej2 = core.tv_all("Trace_Rdp", trace, decoded, wd, shards=8, max_rejects=3, overrides=True, cfg="Trace_Rdp_cfgecho.cfg")
+            for r in rej2:
+                note = "run %s: %s" % (json.loads(r["run_events"][0]).get("run"), r["event"][:200])
+                echo["mismatches"].append(note)
+                print("NOTE: configuration echo (not a listed property): " + note)
+            echo["runs"] = acc2
+            # the extra conjunct is not vacuous: the same run recorded under another configured layout / name must be rejected
+            for field in ("layout", "name"):
+                evs = [json.loads(x) for x in sl[0]]
+                evs[0]["cfg"][field] = ("de" if evs[0]["cfg"]["layout"] != "de" else "us") if field == "layout" else evs[0]["cfg"]["name"] + [120]
+                cp = os.path.join(wd, "echo-self.ndjson")
+                open(cp, "w").write("\n".join(json.dumps(x, separators=(",", ":")) for x in evs) + "\n")
+                if core.tv_once("Trace_Rdp", cp, decoded, wd, overrides=True, cfg="Trace_Rdp_cfgecho.cfg") is None:
+                    raise core.ToolError("configuration echo pass is vacuous: a run recorded under another %s was accepted" % field)
         connected = sum(1 for l in lines if '"api":"connect"' in l and '"res":"ok"' in l)
         cov = {"states": mc.distinct, "transitions": mc.generated, "traces_validated_against_impl": accepted,
                "samples": [{"plan": plans[1], "first_events": [json.loads(x) for x in lines[runs[1][0] + 1:runs[1][0] + 5]]}],
@@ -125,7 +143,7 @@ def run(tier, seed):
                "rule": "%d (configuration, conforming server) pairs drawn by TLC (Gen_Rdp, RandomElement over class sets: NLA/admin/blank/auto/hash/check, credential and name classes incl. multi-byte and surrogate pairs, "
                        "screen sizes, layouts; selected protocol among those offered, user id, share id, reported version, optional core fields, SC_SECURITY presence, block order incl. unknown blocks, licence variant, capability list variant, "
                        "1-2 activations, error-info) + a user-id sweep of %d values; each executed end to end over real TLS; distinct = distinct (cfg, srv)" % (nconn, len(uids)),
-               "connections_established": connected, "licence_table": lic, "events_validated": len(lines), "binding_selftest_rejected": tested, "checker_cmd": mc.cmd}
+               "connections_established": connected, "licence_table": lic, "configuration_echo": echo, "events_validated": len(lines), "binding_selftest_rejected": tested, "checker_cmd": mc.cmd}
         return v.finish("model_checking", cov, [
             "conforming server: I/O channel 1003, no static channels, user id != 1003, licensing ended at once by the server (new licence, or error alert STATUS_VALID_CLIENT / ST_NO_TRANSITION) under any defined preamble flags, one TLS record per TSRequest / licence PDU, CredSSP version 2 semantics",
             "the synchronize PDU's targetUser is not constrained", "OpenSSL (native-tls) on both ends of the in-process TLS link is trusted"])
